@@ -7,6 +7,15 @@ def main():
     v = tlaval.parse_value('<<1, -2, "a", [x |-> <<0,1>>, y |-> TRUE], {1,2}, (0 :> 1 @@ 1 :> 2)>>')
     assert v[0] == 1 and v[1] == -2 and v[2] == 'a' and v[3]['x'] == [0, 1] and v[3]['y'] is True, v
     assert v[4] == ('set', [1, 2]) and v[5] == {0: 1, 1: 2}, v
+    # the batch trace validation really rejects: one correct and one corrupted event through Trace_Pauli (X * Z = X^1 Z^1 with phase exponent 0 in the binary form)
+    from . import tlc
+    good = dict(op='matmul', a=[0, 0, 1, 0], b=[0, 0, 0, 1], res=[0, 0, 1, 1])
+    bad = dict(good, res=[1, 1, 1, 1])
+    try:
+        acc, rej, _ = tlc.validate_events('pauli/Trace_Pauli.tla', 'pauli/Trace_Pauli.cfg', [good, bad], shards=1)
+        assert acc == 1 and [r[0] for r in rej] == [1], (acc, rej)
+    finally:
+        tlc.cleanup()
     print('selfcheck ok')
 
 
